@@ -287,8 +287,10 @@ theorem estep_invQ (s s' : ESt) (l : ELabel) (h : EInvQ s) (hs : estep s l = som
     refine ⟨h1, h2, h3, ?_, ?_, h6, h7⟩
     · simp [hc] at h4; simp [h4]
     · intro hne; have := (h5 hne).1; simp [this] at hc
-  · -- dBegin: impossible without rwq
+  · -- dLoad: impossible without rwq
     simp [h1] at hc
+  · -- dBegin: no direct write is in progress
+    simp [h2] at hc
   · -- dEnd
     simp [h2] at hc
   · -- closeWriter
@@ -338,9 +340,15 @@ theorem encoder_discipline_partial (ls : List ELabel) (s : ESt)
 /-- counter-witness (finding C11-2): with `ReplyWithoutQueue` a direct write is inside `Encode`
 when `close` closes the writer (no `w.mu` is held by the direct write) and then the encoder -/
 theorem rwq_close_overlaps_encode :
-    ∃ s, erun { rwq := true } [.dBegin, .closeWriter, .closeEncoder] = some s ∧
+    ∃ s, erun { rwq := true } [.dLoad, .dBegin, .closeWriter, .closeEncoder] = some s ∧
       s.violated = true ∧ s.inFlight = 1 ∧ s.closes = 1 := by
   exact ⟨_, rfl, by decide, by decide, by decide⟩
+
+/-- second counter-witness (finding C11-2b): the direct write loaded the encoder before `close`
+swapped it out and calls `Encode` after the encoder's `Close` -/
+theorem rwq_encode_after_close :
+    ∃ s, erun { rwq := true } [.dLoad, .closeWriter, .closeEncoder, .dBegin] = some s ∧
+      s.violated = true ∧ s.closes = 1 ∧ s.encodes = 1 := ⟨_, rfl, by decide, by decide, by decide⟩
 
 /-! non-vacuity: a complete good run without ReplyWithoutQueue -/
 example : ∃ s, erun { rwq := false } [.qLock, .qBegin, .qEnd, .closeWriter, .closeEncoder, .closeTransport] = some s ∧
